@@ -32,9 +32,6 @@ static const variant_t VARS[6] = {
     {"siv256", 32, 1, tinyjambu_256_siv_encrypt, tinyjambu_256_siv_decrypt},
 };
 
-/* weak: present in the pinned tree; a refactor may remove it */
-extern int tinyjambu_aead_check_tag(unsigned char *plaintext, size_t plaintext_len, const unsigned char *tag1,
-                                    const unsigned char *tag2, size_t size) __attribute__((weak));
 
 static int F_RT, F_MODEL, F_TAMPER, F_ZERO, F_PAIRS;
 static unsigned long long n_cases, n_enc, n_dec, n_verdict_acc, n_verdict_rej, n_model_cmp, n_bytes_cmp,
@@ -449,39 +446,6 @@ static void battery_short(const kctx_t *kc, rng_t *r)
         if (gb_canary_bad(&gM2)) {
             snprintf(key, sizeof key, "short-wrote-outside:%s", kc->v->name);
             emit_viol(key, "clen=%zu wrote outside the plaintext buffer", cl);
-        }
-    }
-}
-
-/* direct monitor on the comparison primitive, if the symbol still exists */
-static void battery_checktag(rng_t *r)
-{
-    uint8_t a[16], b[16], pt[40], pt0[40];
-    size_t size, i, pl;
-    int d;
-    if (!tinyjambu_aead_check_tag) return;
-    for (size = 0; size <= 16; ++size) {
-        for (i = 0; i <= size; ++i) {           /* i == size: equal tags */
-            for (d = 1; d < 256; d += (i == size ? 256 : 1)) {
-                int rc;
-                fill_random(r, a, 16); memcpy(b, a, 16);
-                if (i < size) b[i] ^= (uint8_t)d;
-                pl = rnd(r, 33);
-                fill_random(r, pt, sizeof pt);
-                for (size_t q = 0; q < sizeof pt; ++q) pt[q] |= 1;
-                memcpy(pt0, pt, sizeof pt);
-                rc = tinyjambu_aead_check_tag(pt, pl, a, b, size);
-                ++n_checktag;
-                if (i == size) {
-                    if (rc != 0 || memcmp(pt, pt0, sizeof pt))
-                        emit_viol("check-tag:equal-rejected", "size=%zu rc=%d", size, rc);
-                } else {
-                    if (rc != -1)
-                        emit_viol("check-tag:different-accepted", "size=%zu byte=%zu delta=%02x rc=%d", size, i, d, rc);
-                    else if (!all_zero(pt, pl) || memcmp(pt + pl, pt0 + pl, sizeof pt - pl))
-                        emit_viol("check-tag:wipe-wrong", "size=%zu byte=%zu pl=%zu", size, i, pl);
-                }
-            }
         }
     }
 }
@@ -990,7 +954,8 @@ int main(int argc, char **argv)
         if (rep % 5 == 4) { size_t t = mlen; mlen = adlen % 50; adlen = t; }      /* long AD, short message */
         run_case(&a, idx, &VARS[v0 + rep % nv], adlen, mlen, (int)rep, 1);
     }
-    if (F_TAMPER && a.batch == 0) { rng_t r = rng_for(a.seed, 0xC7, 0); set_case("{\"h\":\"aead\",\"mode\":\"check_tag-direct\"}"); battery_checktag(&r); }
+    /* (the internal comparison primitive is deliberately not called directly: its signature is not part of the API,
+     *  and the batteries above drive it through all six decrypt functions with every differing byte position) */
 
     emit_stat("evaluations", n_cases);
     emit_stat("encrypt_calls", n_enc); emit_stat("decrypt_calls", n_dec);
